@@ -169,8 +169,8 @@ def run(ctx):
         dynmon.install(patch, sink)
         shapes = [(3, 3), (2, 4)] + ([(1, 1), (1, 3), (3, 1), (4, 4)] if ctx.thorough else [])
         exhaustive(ctx, shapes)
-        turn_algebra(ctx, ctx.pick(40, 400))
-        n = ctx.pick(60, 600)
+        turn_algebra(ctx, ctx.pick(40, 2000))
+        n = ctx.pick(60, 4000)
         for state, cat, rng in dyndrive.random_function_sweep(ctx, 'C08sweep', n):
             y, x = gen.front_of(state)
             if not gen.in_grid(state, y, x) or type(state.grid[y, x]) is not Floor:
@@ -178,8 +178,8 @@ def run(ctx):
                     if a.is_move() or a.is_turn():
                         ctx.nontrivial(('sweep', enc.es(state), a.name))
         ctx.sample('sweep_state', {'state': enc.render(state), 'category': cat})
-        dyndrive.shipped_histories(ctx, 'C08hist', None, ctx.pick(1, 6), ctx.pick(120, 500), history_invariant(ctx, 'shipped'))
-        composition_histories(ctx, ctx.pick(24, 400), ctx.pick(60, 150))
+        dyndrive.shipped_histories(ctx, 'C08hist', None, ctx.pick(1, 16), ctx.pick(120, 600), history_invariant(ctx, 'shipped'))
+        composition_histories(ctx, ctx.pick(24, 2000), ctx.pick(60, 150))
         ctx.extra['exhaustive'] = True
 
 
